@@ -16,9 +16,11 @@ ASSUMPTIONS = [
     "StroquOOL's final candidates restart their reward list when validation begins (documented exception): the list must be the cell's rewards since one common round",
     "means compared to rel. 1e-9 (math.fsum reference vs NumPy summation), variances to rel. 1e-7",
 ]
-FLOOR = {"cells_compared": {"quick": 500000, "thorough": 10000000}, "arms_compared": {"quick": 2000, "thorough": 50000},
-         "poo_scores_compared": {"quick": 1000, "thorough": 20000}, "gpo_scores_compared": {"quick": 300, "thorough": 6000},
-         "vroom_chains_checked": {"quick": 500, "thorough": 10000}}
+FLOOR = {"cells_compared": {"quick": 500000, "thorough": 4000000},
+         "arms_compared": {"quick": 2000, "thorough": 16000},
+         "poo_scores_compared": {"quick": 1000, "thorough": 8000},
+         "gpo_scores_compared": {"quick": 300, "thorough": 2400},
+         "vroom_chains_checked": {"quick": 500, "thorough": 4000}}
 WALL = {"quick": 1500, "thorough": 5 * 3600}
 SIMPLE = ["SOO", "DOO", "DOO_delta", "StoSOO", "SequOOL", "StroquOOL"]
 
